@@ -80,6 +80,12 @@ const int kMaxReq = 6, kMaxCuts = 48;
 // ---------------------------------------------------------------------------------------------- request grammar / model
 // kind: 0 = HTTP/1.1, no Connection header      1 = HTTP/1.1 + "Connection: keep-alive"   2 = HTTP/1.0 + "Connection: keep-alive"
 //       3 = HTTP/1.1 + "Connection: close"      4 = HTTP/1.0, no Connection header        5 = HTTP/1.0 + "Connection: close"
+//       6 = HTTP/1.0 + a Connection header that names neither keep-alive nor close (TE, Upgrade ...): an HTTP/1.0 request
+//           persists only with keep-alive (RFC 7230 6.3), so it is a closing request exactly like kind 4
+//       7 = HTTP/1.1 + such a Connection header: persistent exactly like kind 0
+const int kMaxKind = 7;
+inline bool kind_closing(int64_t k) { return k >= 3 && k <= 6; }
+const char *kOtherConnValues[4] = {"TE", "Upgrade", "upgrade, TE", "x-hop"};
 struct MReq {
   int method = 0, kind = 0;
   bool v11 = true, closing = false;
@@ -148,9 +154,9 @@ std::string gen_body(Rng &g, int kind, size_t n) {
 MReq build_request(const Op &op, int index, bool with_id) {
   MReq m;
   m.method = (int)op.in(0, 0, 6);
-  m.kind = (int)op.in(1, 0, 5);
-  m.v11 = (m.kind == 0 || m.kind == 1 || m.kind == 3);
-  m.closing = m.kind >= 3;
+  m.kind = (int)op.in(1, 0, kMaxKind);
+  m.v11 = (m.kind == 0 || m.kind == 1 || m.kind == 3 || m.kind == 7);
+  m.closing = kind_closing(m.kind);
   int tshape = (int)op.in(2, 0, 127);
   Rng tg((uint64_t)op.in(3, 0, INT64_MAX) * 31 + 7);
   int nhdr = (int)op.in(4, 0, 6);
@@ -215,6 +221,7 @@ MReq build_request(const Op &op, int index, bool with_id) {
   { std::string v = std::to_string(blen); insert_at_random({"Content-Length", ows_wrap(v), v}); }
   if (m.kind == 1 || m.kind == 2) insert_at_random({"Connection", " keep-alive", "keep-alive"});
   if (m.kind == 3 || m.kind == 5) insert_at_random({"Connection", " close", "close"});
+  if (m.kind == 6 || m.kind == 7) { std::string v = kOtherConnValues[hg.in(0, 3)]; insert_at_random({"Connection", " " + v, v}); }
   if (with_id) { std::string v = std::to_string(index); insert_at_random({"X-Req", " " + v, v}); }
 
   // ---- wire + anchors
@@ -657,7 +664,7 @@ std::string run_pipeline(const Scenario &s, CaseInfo &info) {
   if (kAvoid_close_with_pending_output)
     for (auto &l : lives) {
       int cp = -1; bool pending = false; size_t bytes = 0;
-      for (size_t i = 0; i < l.ps.reqs.size() && cp < 0; ++i) { pending |= l.ps.reqs[i]->in(9, 0, 41) > 0; bytes += (size_t)l.ps.reqs[i]->in(10, 0, 200 * 1024); if (l.ps.reqs[i]->in(1, 0, 5) >= 3) cp = (int)i; }
+      for (size_t i = 0; i < l.ps.reqs.size() && cp < 0; ++i) { pending |= l.ps.reqs[i]->in(9, 0, 41) > 0; bytes += (size_t)l.ps.reqs[i]->in(10, 0, 200 * 1024); if (kind_closing(l.ps.reqs[i]->in(1, 0, kMaxKind))) cp = (int)i; }
       if (cp >= 0 && (pending || bytes > 60000)) { stats().counters["avoided_close_with_pending_output"]++; return ""; }
     }
   const Parsed &ps0 = lives[0].ps;
@@ -1015,6 +1022,8 @@ std::string run_pipeline(const Scenario &s, CaseInfo &info) {
   info.cls_if(close_pos >= 0, "closing_request");
   info.cls_if(close_pos >= 0 && close_pos + 1 < nreq, "requests_behind_the_closing_one");
   info.cls_if(close_pos >= 0 && !p.reqs[close_pos].v11, "closing_by_HTTP_1_0");
+  info.cls_if(close_pos >= 0 && p.reqs[close_pos].kind == 6, "closing_by_HTTP_1_0_with_other_connection_value");
+  { bool k7 = false; for (int i = 0; i < nreq && (close_pos < 0 || i < close_pos); ++i) k7 |= p.reqs[i].kind == 7; info.cls_if(k7, "persistent_HTTP_1_1_with_other_connection_value"); }
   info.cls_if(late, "late_handler"); info.cls_if(late_close, "late_handler_on_closing_request");
   info.cls_if(out_of_order, "completed_out_of_order"); info.cls_if(at_next, "completed_inside_next_hand_over");
   info.cls_if(big, "response_over_64KiB"); info.cls_if(close_pos >= 0 && plan[close_pos].rsize > 64 * 1024, "closing_response_over_64KiB");
@@ -1075,7 +1084,7 @@ Scenario expand_segmentation(int64_t seed) {
   Scenario sc; auto &v = sc.ops;
   int nreq = (int)g.pick({{2, 1}, {3, 2}, {3, 3}, {2, 4}, {1, 5}, {1, 6}});
   v.push_back(mk(CFG, {g.pick({{6, 0}, {2, 1}, {2, 2}}), g.in(1, 64)}));
-  for (int i = 0; i < nreq; ++i) { std::vector<int64_t> a; gen_req_common(g, a, g.in(0, 5)); v.push_back(mk(REQ, a)); }
+  for (int i = 0; i < nreq; ++i) { std::vector<int64_t> a; gen_req_common(g, a, g.in(0, kMaxKind)); v.push_back(mk(REQ, a)); }
   bool tail = g.chance(25);
   if (tail) gen_tail(g, v);
   gen_cuts(g, v, nreq, tail && g.chance(60) ? 3 : 14);
@@ -1089,7 +1098,7 @@ void gen_pipeline_life(Rng &g, std::vector<Op> &v, int nst, bool later_life) {
   bool all_sync = g.chance(10);
   for (int i = 0; i < nreq; ++i) {
     std::vector<int64_t> a;
-    int64_t kind = (close_pos >= 0 && i == close_pos) ? g.in(3, 5) : (close_pos >= 0 && i > close_pos) ? g.in(0, 5) : g.in(0, 2);
+    int64_t kind = (close_pos >= 0 && i == close_pos) ? g.in(3, 6) : (close_pos >= 0 && i > close_pos) ? g.in(0, kMaxKind) : g.pick({{3, 0}, {3, 1}, {3, 2}, {2, 7}});
     gen_req_common(g, a, kind);
     if (a[6] > 300 && g.chance(70)) a[6] = g.in(0, 40);
     int64_t k = all_sync ? 0 : g.pick({{4, 0}, {5, -1}, {2, -2}, {1, 41}});
